@@ -1,7 +1,7 @@
 (* C17 -- proofs about the tables and combinator closures REGENERATED from /repo on this run (Gen_FilterTables.v). *)
 From Coq Require Import List ZArith Bool String Lia.
 From RG.Base Require Import Outcome.
-From RG.Filters Require Import FilterIR FilterAlgebra LoaderState.
+From RG.Filters Require Import FilterIR FilterAlgebra LoaderState ValueSources.
 From RGW Require Import Gen_FilterTables.
 Import ListNotations.
 Local Open Scope string_scope.
@@ -45,6 +45,22 @@ Proof. split; vm_compute; reflexivity. Qed.
    eval's comparison cases are transcribed *)
 Lemma gen_cmp_closures_ok : cmp_closures_okb gen_cmp_closures = true.
 Proof. vm_compute. reflexivity. Qed.
+
+(* where the Text of a capture and the value of a literal in a local predicate function come from: nodeText / fileBytes /
+   printNode, the nodeText field of the filter parameters, the text renderMessage interpolates and expandMacro's literal switch
+   are the audited ones; integer literals are read with base 0 into 64 bits *)
+Lemma gen_value_sources_ok : value_sources_okb gen_value_sources = true.
+Proof. vm_compute. reflexivity. Qed.
+
+Lemma gen_macro_int_params_ok : macro_int_params_okb gen_macro_int_base gen_macro_int_bits = true.
+Proof. vm_compute. reflexivity. Qed.
+
+Lemma gen_macro_int_literal p body : wf_lit p body = true -> (lit_value p body < two63)%N ->
+  parse_int (Z.to_N gen_macro_int_base) (Z.to_N gen_macro_int_bits) (spell p body) = Some (Z.of_N (lit_value p body)).
+Proof.
+  pose proof gen_macro_int_params_ok as H. unfold macro_int_params_okb in H. apply andb_prop in H. destruct H as [H1 H2].
+  apply Z.eqb_eq in H1. apply Z.eqb_eq in H2. rewrite H1, H2. exact (go_literal_is_base0 p body).
+Qed.
 
 Definition compile_gen := compile gen_tables.
 Definition eval_gen := eval gen_combinators.
